@@ -43,9 +43,9 @@ Init == /\ sleeping \in SUBSET Nodes
         /\ last = [k \in {} |-> 0] /\ sup = {}
 
 (* send(set) with buffering allowed *)
-Send(k, v) ==
+Send(k, v, b) ==
     /\ last' = Put(last, k, v)
-    /\ IF k[1] \in sleeping
+    /\ IF b /\ k[1] \in sleeping
        THEN /\ buf' = Put(buf, k, v) /\ pending' = Put(pending, k, v) /\ wrote' = {} /\ sup' = sup \ {k}
             /\ UNCHANGED sleeping
        ELSE \* written immediately, unchanged; a command still parked for the key (the node presented
@@ -65,7 +65,10 @@ Wake(n, ok) ==
 (* the node presents itself again: it is no longer known to be sleeping; parked commands stay *)
 Represent(n) == sleeping' = sleeping \ {n} /\ wrote' = {} /\ UNCHANGED <<buf, pending, last, sup>>
 
-Next == \/ \E k \in Keys, v \in 0..7 : Send(k, v)
+Idle == wrote' = {} /\ UNCHANGED <<sleeping, buf, pending, last, sup>>
+
+Next == \/ \E k \in Keys, v \in 0..7, b \in BOOLEAN : Send(k, v, b)
+        \/ Idle
         \/ \E n \in Nodes : \E ok \in SUBSET {k \in DOMAIN buf : k[1] = n} : Wake(n, ok)
         \/ \E n \in Nodes : Represent(n)
 
@@ -84,7 +87,7 @@ IndInit == /\ sleeping = Gen(6) /\ buf = Gen(6) /\ pending = Gen(6) /\ wrote = G
 (* write to a node not known to be sleeping -- after which nothing live is parked for the key   *)
 WakeWritesPending ==
     \A e \in wrote' : (e[1] \in DOMAIN pending /\ e[2] = pending[e[1]] /\ e[1] \notin DOMAIN buf')
-                      \/ (e[1][1] \notin sleeping /\ (e[1] \in DOMAIN buf' => e[1] \in sup'))
+                      \/ (e[1] \in DOMAIN buf' => e[1] \in sup')
 (* a released command that was not superseded carries the latest value sent for its key *)
 ReleasedLiveIsLatest ==
     \A e \in wrote' : (e[1] \in DOMAIN buf /\ e[1] \notin sup) => e[2] = last'[e[1]]
